@@ -565,7 +565,12 @@ func c16Run(c *core.Ctx, raw json.RawMessage) {
 	for i := 1; i <= sc.Nodes; i++ {
 		st.voter[i] = !(sc.NonVoter && i == sc.Nodes)
 	}
-	ok, idx, _ := opsExec(s, opsSettle(s, 0), "CREATE TABLE t (id INTEGER PRIMARY KEY, v INTEGER)")
+	var ok bool
+	var idx uint64
+	for attempt := 0; attempt < 4 && !ok; attempt++ {
+		// (leadership may still move right after the joins: retry on a definite refusal)
+		ok, idx, _ = opsExec(s, opsSettle(s, 0), "CREATE TABLE IF NOT EXISTS t (id INTEGER PRIMARY KEY, v INTEGER)")
+	}
 	if !ok {
 		c.Discard("schema-failed")
 		return
